@@ -75,7 +75,7 @@ def run(ctx):
     rng = ctx.rng
     q = ctx.tier == "quick"
     cases = []       # (kind, expression, doc, expected-enc or None for "must be rejected")
-    strs = [rnd_str(rng) for _ in range(3000 if q else 60000)]
+    strs = [rnd_str(rng) for _ in range(3000 if q else 300000)]
     if not q:
         import itertools
         for n in range(0, 5):
@@ -92,7 +92,7 @@ def run(ctx):
         other = s + "x"
         cases.append(("quoted", key, E.dump({s: E.Num(member), other: E.Num("u0")}), member))
         cases.append(("quoted-sub", "a." + key + " | @", E.dump({"a": {s: E.Num(member)}}), member))
-    for _ in range(2000 if q else 40000):
+    for _ in range(2000 if q else 200000):
         v = rnd_value(rng, rng.choice([0, 1, 2, 3]))
         text = json.dumps(v, ensure_ascii=rng.random() < 0.3, separators=rng.choice([(",", ":"), (", ", ": ")]))
         cases.append(("literal", lit_spell(text), "n", G.json_to_enc(v)))
